@@ -160,7 +160,7 @@ def Rodas(dae: nDAE,
             J = dae.J(t, y0, p)
             stats.nJeval += 1
 
-        dfdt0 = dt * dfdt(dae, t, y0)
+        dfdt0 = dt * dfdt(dae, t, y0, dt)
         rhs = dae.F(t, y0, p) + rparam.g[0] * dfdt0
         stats.nfeval = stats.nfeval + 1
 
@@ -343,8 +343,9 @@ def Rodas(dae: nDAE,
         return daesol(T, Y, stats=stats)
 
 
-def dfdt(dae: nDAE, t, y):
-    tscale = np.maximum(0.1 * np.abs(t), 1e-8)
+def dfdt(dae: nDAE, t, y, dt=1.0):
+    # near t = 0 the increment is taken relative to the step: sqrt(eps) * 1e-8 is below the resolution of F
+    tscale = np.maximum(0.1 * np.abs(t), np.abs(dt))
     ddt = t + np.sqrt(np.spacing(1)) * tscale - t
     f0 = dae.F(t, y, dae.p)
     f1 = dae.F(t + ddt, y, dae.p)
